@@ -28,6 +28,7 @@ struct Raw
     struct Storage writer;
     struct StorageProperties properties;
     struct file file;
+    uint8_t is_open; // when true, `file` holds a descriptor this device opened
     size_t offset;
 };
 
@@ -83,6 +84,7 @@ raw_start(struct Storage* self_)
     struct Raw* self = containerof(self_, struct Raw, writer);
     CHECK(file_create(
       &self->file, self->properties.uri.str, self->properties.uri.nbytes));
+    self->is_open = 1;
     self->offset = 0; // each acquisition writes its file from the beginning
     LOG("RAW: Frame header size %d bytes", (int)sizeof(struct VideoFrame));
     return DeviceState_Running;
@@ -94,7 +96,10 @@ static enum DeviceState
 raw_stop(struct Storage* self_)
 {
     struct Raw* self = containerof(self_, struct Raw, writer);
-    file_close(&self->file);
+    if (self->is_open) {
+        file_close(&self->file);
+        self->is_open = 0;
+    }
     return DeviceState_Armed;
 }
 
